@@ -10,6 +10,9 @@ C13_CLAUSES_HTLC = ["C13_QueueSound", "C13_QueueComplete", "C13_OnceOnTime", "C1
 # claims in the last block before / in the block of the expiry, fast-forwarded empty blocks)
 C13_REQUIRED = ["refund_plain", "refund_in", "refund_out", "refund_many", "refund_dozens", "claim_last_block",
                 "claim_in_expiry_block", "skip"]
+# magnitude tier: antecedents that must be exercised (vacuity) — every stratum of the single amounts, creates /
+# claims / refunds / limit rejections at scale, and limit checks whose operands fit 64 bits while their sum does not
+MAG_STRATA = ["mag_2p31_32", "mag_2p32_53", "mag_2p53_63", "mag_2p63_64", "mag_2p64_65", "mag_2p96", "mag_2p127_129"]
 # diagnostic clauses (specification beyond the listed properties; reported, never a verdict)
 DIAGNOSTIC_HTLC = ["X03_CreateRecord", "X04_Admission", "X04_InFlight", "X04_ParamsStored",
                    "X12_HTLC_Queue", "X12_HTLC_ZeroQueue"]
@@ -19,9 +22,14 @@ HTLC_GEN_CFG = "compress=50,period=100,users=2,initbal=5"
 
 HTLC_RND = T(
     [dict(n=6, len=40, procs=6, cfg="users=2"),
-     dict(n=6, len=40, procs=6, cfg="users=3,limit1=6,limit2=6,tbl2=4,period=60,initbal=6")],
+     dict(n=6, len=40, procs=6, cfg="users=3,limit1=6,limit2=6,tbl2=4,period=60,initbal=6"),
+     # magnitude tier (exact scaling): history i runs at scale K[i mod 12] of the "quick" scale set
+     dict(n=12, len=25, procs=1, cfg="users=2,scales=quick"),
+     dict(n=12, len=25, procs=1, cfg="users=3,limit1=6,limit2=6,tbl2=4,period=60,initbal=6,scales=quick")],
     [dict(n=60, len=50, procs=7, cfg="users=2"),
      dict(n=60, len=50, procs=7, cfg="users=3,limit1=6,limit2=6,tbl2=4,period=60,initbal=6"),
+     dict(n=36, len=40, procs=3, cfg="users=2,scales=thorough"),
+     dict(n=36, len=40, procs=3, cfg="users=3,limit1=6,limit2=6,tbl2=4,period=60,initbal=6,scales=thorough"),
      # dozens of contracts per expiry height (C13); the quick tier has scenarios/htlc_dozens.ndjson
      dict(n=6, len=40, procs=6, cfg="users=3,initbal=60,flood=40,limit1=12")])
 HTLC_GEN = T([dict(cfg="GEN_HTLC.cfg", num=8, depth=26, seeds=8)],
@@ -36,6 +44,12 @@ HTLC_SCN = [dict(file="scenarios/htlc_boundary.ndjson", cfg="users=2"),
             # asset life cycle: switched off / swap range, lock range, fee, deputy changed with transfers in flight;
             # equal block times, a step far beyond the period
             dict(file="scenarios/htlc_lifecycle.ndjson", cfg="users=2,limit1=8"),
+            # magnitude tier: the limit / life-cycle / boundary scenarios once per scale of the "quick" set (12 chains
+            # each; every amount, balance, limit, fee on chain = model value * K, logged / K)
+            dict(file="scenarios/htlc_magnitude.ndjson", cfg="users=2,scales=quick"),
+            dict(file="scenarios/htlc_limits.ndjson", cfg="users=2,scales=quick"),
+            dict(file="scenarios/htlc_lifecycle.ndjson", cfg="users=2,limit1=8,scales=quick"),
+            dict(file="scenarios/htlc_boundary.ndjson", cfg="users=2,scales=quick"),
             # 32 contracts refunded by one begin blocker
             dict(file="scenarios/htlc_dozens.ndjson", cfg="users=3,initbal=20,limit1=8")]
 HTLC_MC = T([dict(cfg="MC_HTLC.cfg", timeout=900, heap="4g"), dict(cfg="MC_HTLC_assets.cfg", timeout=900, heap="4g"),
@@ -57,6 +71,9 @@ HTLC_ASSUME = ["TLC 1.8, SANY, CommunityModules Json", "Go toolchain, cosmos-sdk
                "binding secret/timestamp/contract only",
                "height compression for TLC-generated behaviours (model lock k = real lock 50k, DESIGN 4.2); "
                "random and scripted histories run at real block granularity",
+               "magnitude tier by exact scaling: HTLC arithmetic on amounts is additive/comparative only, so a run in "
+               "which every amount, balance, limit and fee is K times the model value behaves like the model run; the "
+               "harness logs amount / K and counts any remainder as inexact (clause C0x_ScaleExact)",
                "no account donates to the htlc module account (the application wiring blocks it as a recipient "
                "since /repo 20cb755, which also fixed finding H1 / F28)"]
 
@@ -67,7 +84,8 @@ PROPS = {
                                  "claim_plain_ok", "claim_in_ok", "claim_out_ok", "claim_by_third_party",
                                  "claim_wrong_secret", "claim_other_ts", "claim_other_contract", "claim_second",
                                  "claim_after_refund", "claim_in_expiry_block", "claim_last_block",
-                                 "refund_plain", "refund_in", "refund_out", "refund_many", "create_to_module_rej"],
+                                 "refund_plain", "refund_in", "refund_out", "refund_many", "create_to_module_rej",
+                                 "scaled_claim", "scaled_refund"] + MAG_STRATA,
                        gen_cfg=HTLC_GEN_CFG, assumptions=HTLC_ASSUME),
     "C04": ModuleCheck("htlc", "HTLC.tla", "HTLCTrace.tla", "HTLCTrace.cfg", HTLC_CLAUSES_C04,
                        HTLC_MC, HTLC_GEN, HTLC_RND, scenarios=HTLC_SCN,
@@ -77,7 +95,8 @@ PROPS = {
                                  "asset_removed_inflight", "claim_in_rej", "create_to_module_rej",
                                  "inactive_rej", "amount_range_rej", "asset_lock_range_rej", "below_fee_rej",
                                  "changed_inflight", "deputy_changed_inflight", "claim_inactive_ok",
-                                 "refund_unsupported", "claim_new_deputy", "dt_zero", "dt_beyond_period"],
+                                 "refund_unsupported", "claim_new_deputy", "dt_zero", "dt_beyond_period",
+                                 "scaled_create_ok", "scaled_limit_rej", "scaled_claim", "scaled_sum64_rej"] + MAG_STRATA,
                        gen_cfg=HTLC_GEN_CFG, assumptions=HTLC_ASSUME),
 }
 
@@ -111,6 +130,10 @@ TEXT = {
              "the running window (ghost windowSum); the window advances by the block-time difference and resets at "
              "the period.  Parameter changes go through the authority route (MsgUpdateParams) between blocks, "
              "including removing an asset with transfers in flight.",
-        note="As C03.  Asset denoms have no genesis supply.  Limits are small integers (<= 6); the window is driven "
-             "by block-time steps of 1..60 s against periods of 5..120 s."),
+        note="As C03.  Asset denoms have no genesis supply.  Model limits are small integers (<= 12); the window is "
+             "driven by block-time steps of 0..5000 s against periods of 5..120 s.  Magnitude tier by exact scaling: "
+             "the limit / life-cycle / boundary scenarios and 24 random histories run with every amount, balance, "
+             "limit and fee multiplied by K (12 scales from 2^30 to 2^125, odd, around 2^63 / 2^64 such that "
+             "operands fit a word and sums do not) and are logged divided by K, so the same clauses decide the real "
+             "code at those magnitudes; antecedents mag_* / scaled_* count the strata (clause_antecedents)."),
 }
